@@ -27,6 +27,8 @@ type Witnesses struct {
 	ToMontSubtract int
 	// Pairs are canonical (a, b) for which the quotient digits of Mul(a, b) are the limbs of a structured M.
 	Pairs [][2]*big.Int
+	// ProductBoundary counts the pairs of Pairs that are product-boundary pairs (a*b within a few units of 0 / m).
+	ProductBoundary int
 	// Digits are the boundary quotient digits used.
 	Digits []uint64
 	// LowLimbs are 64-bit values v for which the first quotient digit of ToMontgomery((v,0,0,0)) is a boundary
@@ -528,6 +530,47 @@ func ReductionWitnesses(m *big.Int) *Witnesses {
 			seenT[x.Text(16)] = true
 			w.ToMont = append(w.ToMont, x)
 			w.ToMontSubtract++
+		}
+	}
+
+	// product-boundary pairs: a * b congruent to a small target t, in each of the three readings a multiplication
+	// routine can have of its operands and result - canonical values (a*b = t), stored limbs as integers
+	// (aR * bR = t) and the stored result (a*b*R = t). Any reduction other than Fiat's word-wise Montgomery (Barrett,
+	// folding, a lazy final subtraction) has its rare correction step where the residue is within a few units of 0,
+	// of m or of 2^256 - m.
+	{
+		rInv := new(big.Int).ModInverse(ref.Mod(r, m), m)
+		var as []*big.Int
+
+		for i, v := range Strings256(m, 0) {
+			if i%7 == 3 && v.Sign() != 0 && v.Cmp(m) < 0 {
+				as = append(as, v)
+			}
+		}
+
+		for _, f := range Fixed(24, "product-boundary") {
+			as = append(as, ref.Mod(f, m))
+		}
+
+		c := ref.Mod(r, m)
+		ts := []*big.Int{big.NewInt(1), big.NewInt(2), big.NewInt(3), new(big.Int).Lsh(one, 32), new(big.Int).Lsh(one, 64), c, new(big.Int).Add(c, one), new(big.Int).Sub(c, one), new(big.Int).Lsh(c, 1)}
+
+		for _, a := range as {
+			aInv := new(big.Int).ModInverse(a, m)
+			if aInv == nil {
+				continue
+			}
+
+			for _, t := range ts {
+				for _, sgn := range []int{1, -1} {
+					tt := ref.Mod(new(big.Int).Mul(t, big.NewInt(int64(sgn))), m)
+					b0 := ref.Mod(new(big.Int).Mul(tt, aInv), m) // a*b = t
+					b1 := ref.Mod(new(big.Int).Mul(b0, rInv), m) // a*b*R = t
+					b2 := ref.Mod(new(big.Int).Mul(b1, rInv), m) // aR*bR = t
+					w.Pairs = append(w.Pairs, [2]*big.Int{a, b0}, [2]*big.Int{a, b1}, [2]*big.Int{a, b2})
+					w.ProductBoundary += 3
+				}
+			}
 		}
 	}
 
